@@ -510,6 +510,7 @@ def targets(ctx):
         return case
 
     return [
+        __import__("vf.props._twover", fromlist=["target"]).target(),
         *__import__("vf.props._thr", fromlist=["target"]).target(ctx, ["parse_unknown"], quick_points=120),
         Target("nested_unknown_through_relays", relay_ev, strategy=relay_strat(), quick=350, thorough=5000, time_quick=50,
                rule="unknown records inside a sub-message (singular / optional / repeated) of a decoded message that is then re-wrapped by the constructor, re-assigned, copied - in the default and the pydantic output - must still be re-emitted; known fields unchanged"),
